@@ -5,7 +5,7 @@ from vsa import front
 from vsa.facts import Facts, unwrap, show, walk, lit_value
 from vsa.front import AnalysisBroken
 from vsa.cfg import CFG
-from vsa.alg import Fold, S
+from vsa.alg import Fold, S, F as Fn
 
 LEVEL = "other"
 D = "votca::xtp::DavidsonSolver::"
@@ -462,30 +462,87 @@ def check_av_invariant(rep, F):
 
 def check_correction_filter(rep, F):
     import sympy as sp
-    from vsa.cases import decide, resolve_ite
+    from vsa.cases import decide, resolve_ite, executes
     f = F.one(D + "computeCorrectionVector")
     rep.analysed(f)
-    fo = Fold(f, opaque_types=r"Eigen::Matrix<").run()
+    fo = Fold(f, opaque_types=r"Eigen::Matrix<", inline=False).run()
     rets = [e for e in fo.events if e["kind"] == "return"]
-    ok, why = len(rets) == 1 and str(getattr(rets[0]["value"], "func", "")) == "unaryExpr" and len(rets[0]["value"].args) == 2, \
-        "the correction is not returned through one element-wise filter (returns %s)" % [str(e["value"])[:80] for e in rets]
-    if ok:
-        lam = getattr(fo, "lambdas", {}).get(str(rets[0]["value"].args[1]))
-        ok, why = lam is not None and len(lam.get("params", [])) == 1, "the filter is not a one-argument lambda"
-    if ok:
-        v = S("_v")
-        r = fo.eval_lambda(lam, [v])
-        conds = getattr(fo, "conds", {})
+    SC = (("a finite value", {"FINITE": True, "NAN": False, "INF": False}, True), ("NaN", {"FINITE": False, "NAN": True, "INF": False}, False),
+          ("an infinity", {"FINITE": False, "NAN": False, "INF": True}, False))
 
+    def cls_orc(x):
         def orc(lf):
             fn = str(getattr(lf, "func", ""))
-            if fn in ("isfinite", "isnan", "isinf") and lf.args and lf.args[0] == v:
+            if fn in ("isfinite", "isnan", "isinf") and lf.args and lf.args[0] == x:
                 return ({"isfinite": "FINITE", "isnan": "NAN", "isinf": "INF"}[fn], True)
             return None
-        for kind, A, want in (("a finite value", {"FINITE": True, "NAN": False, "INF": False}, v), ("NaN", {"FINITE": False, "NAN": True, "INF": False}, sp.Integer(0)),
-                              ("an infinity", {"FINITE": False, "NAN": False, "INF": True}, sp.Integer(0))):
-            got = resolve_ite(r, lambda cs: decide(conds[cs], None, A, orc, conds) if cs in conds else None) if hasattr(r, "args") else r
-            if got != want:
-                ok, why = False, "the filter turns %s into %s (required %s): %s" % (kind, got, want, "an infinite entry survives, becomes NaN when the vector is normalised and poisons the search space" if kind == "an infinity" else "")
-                break
+        return orc
+
+    def lambda_filter(fold, lam):
+        v = S("_v")
+        r = fold.eval_lambda(lam, [v])
+        conds = getattr(fold, "conds", {})
+        for kind, A, keep in SC:
+            got = resolve_ite(r, lambda cs: decide(conds[cs], None, A, cls_orc(v), conds) if cs in conds else None) if hasattr(r, "args") else r
+            if got != (v if keep else sp.Integer(0)):
+                return "the filter turns %s into %s (required %s)%s" % (kind, got, "the value itself" if keep else 0, ": an infinite entry survives, becomes NaN when the vector is normalised and poisons "
+                                                                          "the search space" if kind == "an infinity" else "")
+        return None
+
+    def helper_filter(h):
+        """a helper taking the vector: a loop over all entries that overwrites entry i with 0 exactly when it is not finite, and returns the vector"""
+        rep.analysed(h)
+        fh = Fold(h, opaque_types=r"Eigen::Matrix<").run()
+        ch = getattr(fh, "conds", {})
+        pn = h.j["params"][0]["name"]
+        sts = [e for e in fh.events if e["kind"] == "store" and e.get("idx") and e["target"].startswith(pn + "(")]
+        rt = [e for e in fh.events if e["kind"] == "return"]
+        if len(sts) != 1 or len(rt) != 1 or str(rt[0]["value"]) != pn or sts[0]["value"] != 0:
+            return "helper %s is not 'set the non-finite entries to zero and return the vector'" % h.qname
+        e = sts[0]
+        lids = [g[0][1] for g in e["guards"] if isinstance(g[0], tuple) and g[0] and g[0][0] == "loop"]
+        lp = [l for l in fh.loops if lids and l["lid"] == lids[-1]]
+        if len(lp) != 1:
+            return "helper %s does not visit the entries in a loop" % h.qname
+        l = lp[0]
+        i = e["idx"][0]
+        k_ = [k for k, sy in l["syms"].items() if sy == i]
+        full = len(k_) == 1 and l["init"].get(k_[0]) == 0 and sp.simplify(l["step"][k_[0]] - i - 1) == 0 and isinstance(l["cond"], tuple) and l["cond"][0] == "<" and l["cond"][1] == i \
+            and str(l["cond"][2]) == "size(%s)" % pn
+        if not full:
+            return "helper %s does not visit every entry 0 .. size-1" % h.qname
+        x = Fn("at")(S(pn), i)
+        ix = max(j_ for j_, g in enumerate(e["guards"]) if isinstance(g[0], tuple) and g[0] and g[0][0] == "loop")
+        inner = {"guards": e["guards"][ix + 1:], "not": [nl[ix + 1:] for nl in e.get("not", []) if len(nl) > ix + 1]}
+        for kind, A, keep in SC:
+            def orc(lf):
+                fn = str(getattr(lf, "func", ""))
+                if fn in ("isfinite", "isnan", "isinf") and lf.args and (lf.args[0] == x or str(lf.args[0]) in ("%s(%s)" % (pn, i), "at(%s, %s)" % (pn, i))):
+                    return ({"isfinite": "FINITE", "isnan": "NAN", "isinf": "INF"}[fn], True)
+                return None
+            z = executes(inner, None, A, orc, ch)
+            if z is None:
+                return "helper %s: cannot decide whether %s is overwritten" % (h.qname, kind)
+            if z == keep:
+                return "helper %s %s %s%s" % (h.qname, "overwrites" if keep else "keeps", kind, " (an infinite entry survives and becomes NaN at normalisation)" if kind == "an infinity" else "")
+        return None
+    ok, why, n_f = bool(rets), "no return found", 0
+    for e in rets:
+        v = e["value"]
+        fn = str(getattr(v, "func", ""))
+        if fn == "unaryExpr" and len(v.args) == 2 and str(v.args[1]) in getattr(fo, "lambdas", {}):
+            bad = lambda_filter(fo, fo.lambdas[str(v.args[1])])
+            n_f += 1
+        elif fn and len(getattr(v, "args", ())) == 1 and [h for h in F.funcs if h.qname.split("::")[-1] == fn and h.j.get("internal") and h.j.get("body") and len(h.j["params"]) == 1]:
+            bad = helper_filter([h for h in F.funcs if h.qname.split("::")[-1] == fn and h.j.get("internal") and h.j.get("body") and len(h.j["params"]) == 1][0])
+            n_f += 1
+        elif re.match(r"^Eigen::Matrix<[^()]*\(\)@\d+$", str(v)):
+            bad = None                         # a default-constructed (empty) vector has no entries
+        else:
+            bad = "the correction %s is returned without passing the non-finite filter" % str(v)[:80]
+        if bad:
+            ok, why = False, bad
+            break
+    if ok and n_f == 0:
+        ok, why = False, "no filtered return found"
     rep.check(ok, "R9.8", "finite-correction", "non-finite entries of the correction vector become 0", "DavidsonSolver::computeCorrectionVector: " + why, f.loc(), sample=True)
